@@ -4806,7 +4806,7 @@ class Choose(Array):
             return align(Choose(index, choices), where, self.shape)
 
     def _multiply(self, other):
-        if isinstance(other, Choose) and self.index == other.index:
+        if isinstance(other, Choose) and self.index == other.index and self.choices.shape[-1] == other.choices.shape[-1]:
             return Choose(self.index, self.choices * other.choices)
 
     def _get(self, i, item):
